@@ -123,6 +123,17 @@ class Facts:
             elif kind == 'switch-default':
                 for x in vals:
                     self.facts.append(('ne', e, str(x)))
+            # a verdict computed by conditional expressions (`kind = bad ? 0 : (idx < k ? 1 : 2); switch (kind)`): the arm taken
+            # says which conditions held
+            leaves = self._select_leaves(v)
+            if leaves and all(c_ is not None for _, c_ in leaves):
+                keep = [cs for cs, c_ in leaves if (c_ in [int(x) for x in vals]) == (kind == 'switch')]
+                if keep:
+                    common = set(keep[0])
+                    for cs in keep[1:]:
+                        common &= set(cs)
+                    for c2, t2 in common:
+                        self._add(c2, t2)
             return
         d = fn.defs.get(cond)
         if d is None:
@@ -169,6 +180,17 @@ class Facts:
         elif d.op == 'phi' and d.ty == 'i1':
             # short-circuit && / || : value is known only on edges where the phi is fully decided; skip (sound: fewer facts)
             return
+
+    def _select_leaves(self, v, conds=(), depth=0):
+        """[(conditions that select this leaf, constant or None)] of a value built from conditional expressions"""
+        v = strip_int_casts(self.fn, v) if isinstance(v, str) else v
+        if isinstance(v, str) and INT.match(v):
+            return [(tuple(conds), int(v))]
+        d = self.fn.defs.get(v) if isinstance(v, str) else None
+        if d is not None and d.op == 'select' and depth < 6:
+            return self._select_leaves(d.ops[1], tuple(conds) + ((d.ops[0], True),), depth + 1) + \
+                   self._select_leaves(d.ops[2], tuple(conds) + ((d.ops[0], False),), depth + 1)
+        return [(tuple(conds), None)] if depth else []
 
     def norm(self, v):
         """canonical expression with integer casts stripped (value-preserving for the comparisons used here)"""
